@@ -8,6 +8,7 @@
 extern crate alloc;
 use vstd::prelude::*;
 use vstd::raw_ptr::MemContents;
+use vstd::multiset::Multiset;
 use std::collections::VecDeque;
 use std::sync::Arc;
 use core::ops::{Deref, DerefMut};
@@ -53,9 +54,9 @@ pub tracked struct Fx<T> {
     /// critical sections of this call, in order
     pub ghost cs: Seq<CS<T>>,
     /// waiters taken off the wait list by this call (under the lock), with the role they had
-    pub ghost popped: Set<(SignalTerminator<T>, Role)>,
-    /// popped waiters that have been completed (send / recv) by this call
-    pub ghost used: Set<SignalTerminator<T>>,
+    pub ghost popped: Multiset<(SignalTerminator<T>, Role)>,
+    /// popped waiters that have been completed (send / recv) by this call, with the role they were completed in
+    pub ghost used: Multiset<(SignalTerminator<T>, Role)>,
     /// hand-offs into a waiting receiver's slot, in order
     pub ghost sent: Seq<(SignalTerminator<T>, T)>,
     /// waiting senders whose value was taken, in order
@@ -74,8 +75,8 @@ pub tracked struct Fx<T> {
 impl<T> Fx<T> {
     pub open spec fn fresh(self) -> bool {
         &&& self.cs.len() == 0
-        &&& self.popped == Set::<(SignalTerminator<T>, Role)>::empty()
-        &&& self.used == Set::<SignalTerminator<T>>::empty()
+        &&& self.popped == Multiset::<(SignalTerminator<T>, Role)>::empty()
+        &&& self.used == Multiset::<(SignalTerminator<T>, Role)>::empty()
         &&& self.sent.len() == 0
         &&& self.taken.len() == 0
         &&& self.terminated.len() == 0
@@ -152,6 +153,13 @@ pub open spec fn a3<T>(c: ChannelInternal<T>) -> bool { c.send_count < u32::MAX 
 pub proof fn axiom_r5_sender_live<T>(c: ChannelInternal<T>)
     requires c.recv_count != 0,
     ensures c.send_count != 0,
+{}
+
+/// A2: every collection length is below 2^62 (true on any real machine for sized T)
+pub open spec fn max_len() -> int { 0x4000_0000_0000_0000 }
+#[verifier::external_body]
+pub proof fn axiom_a2_lengths<T>(c: ChannelInternal<T>, v: Vec<T>)
+    ensures c.queue@.len() < max_len(), c.wait_list@.len() < max_len(), v@.len() < max_len(),
 {}
 
 /// R2 (signal protocol): a waiter that its owner removes from the wait list under the lock is never
@@ -257,8 +265,8 @@ impl<T> SignalTerminator<T> {
     /// T2
     #[verifier::external_body]
     pub unsafe fn send(self, data: T, Tracked(fx): Tracked<&mut Fx<T>>)
-        requires old(fx).popped.contains((self, Role::Receiver)), !old(fx).used.contains(self),
-        ensures final(fx).used == old(fx).used.insert(self), final(fx).sent == old(fx).sent.push((self, data)),
+        requires /*@tag:O-own-pop C01 C03 C05*/ old(fx).used.count((self, Role::Receiver)) < old(fx).popped.count((self, Role::Receiver)),
+        ensures final(fx).used == old(fx).used.insert((self, Role::Receiver)), final(fx).sent == old(fx).sent.push((self, data)),
             final(fx).popped == old(fx).popped, final(fx).cs == old(fx).cs, final(fx).taken == old(fx).taken,
             final(fx).terminated == old(fx).terminated, final(fx).held == old(fx).held, final(fx).listed == old(fx).listed,
             final(fx).local_drops == old(fx).local_drops, final(fx).local_reads == old(fx).local_reads,
@@ -266,9 +274,9 @@ impl<T> SignalTerminator<T> {
     /// T3
     #[verifier::external_body]
     pub unsafe fn recv(self, Tracked(fx): Tracked<&mut Fx<T>>) -> (r: T)
-        requires old(fx).popped.contains((self, Role::Sender)), !old(fx).used.contains(self),
+        requires /*@tag:O-own-pop C01 C03 C05*/ old(fx).used.count((self, Role::Sender)) < old(fx).popped.count((self, Role::Sender)),
         ensures r == payload(self),
-            final(fx).used == old(fx).used.insert(self), final(fx).taken == old(fx).taken.push(self),
+            final(fx).used == old(fx).used.insert((self, Role::Sender)), final(fx).taken == old(fx).taken.push(self),
             final(fx).popped == old(fx).popped, final(fx).cs == old(fx).cs, final(fx).sent == old(fx).sent,
             final(fx).terminated == old(fx).terminated, final(fx).held == old(fx).held, final(fx).listed == old(fx).listed,
             final(fx).local_drops == old(fx).local_drops, final(fx).local_reads == old(fx).local_reads,
